@@ -75,6 +75,67 @@ def proj_cache(backend, hash_ids):
             "usage": int(mc.memory_usage)}
 
 
+# ---- mechanism recording (TraceThreads.tla): what each thread does to the backend and the per-call mutex, in real order
+def _tidx():
+    me = getattr(verif_sched._current, "m", None)
+    return (me.idx + 1) if me is not None else 0
+
+
+class _MutexProxy:
+    def __init__(self, lock):
+        self._l = lock
+
+    def __enter__(self):
+        self._l.acquire()
+        verif_side.log("M", "lock", _tidx())
+        return self
+
+    def __exit__(self, *a):
+        self._l.release()
+        verif_side.log("M", "unlock", _tidx())
+        return False
+
+
+def install_mech(backend):
+    """external wrappers on THIS backend object and on the runner's mutex look-up; the scheduler does not yield inside
+    them, so an event is atomic with the return (or the start) of the call it reports"""
+    tls = threading.local()
+
+    def wrap(name, start, end):
+        orig = getattr(backend, name)
+
+        def w(*a, **kw):
+            if getattr(tls, "d", 0):
+                return orig(*a, **kw)
+            tls.d = 1
+            try:
+                if start:
+                    verif_side.log("M", start, _tidx())
+                res = orig(*a, **kw)
+                # (what is logged is decided NOW: the memory backend answers is_memoized with the very dictionary it fills later)
+                seen = bool(res and res[0] is not None) if end == "gend" else bool(res) if end == "iend" else None
+                verif_side.log("M", end, _tidx(), seen)
+                return res
+            finally:
+                tls.d = 0
+        setattr(backend, name, w)
+
+    wrap("get_mementos", "gstart", "gend")
+    wrap("read_result", "rstart", "rend")
+    wrap("is_memoized", None, "iend")
+    wrap("memoize", "mstart", "mend")
+    orig_mutex = runner_local._mutex_for_invocation
+    runner_local._mutex_for_invocation = lambda f: _MutexProxy(orig_mutex(f))
+    return lambda: setattr(runner_local, "_mutex_for_invocation", orig_mutex)
+
+
+def mech_cache(p):
+    """cache projection in the vocabulary of Threads.tla (keys are the arguments of tf)"""
+    return {"lru": [k[1] for k in p["lru"]],
+            "ent": [{"k": e["k"][1], "kind": "val" if e["hasv"] else "mem", "size": e["size"]} for e in p["ent"]],
+            "usage": p["usage"]}
+
+
 def hash_table():
     t = {}
     for name, fn in verif_thr.FNS.items():
@@ -127,6 +188,10 @@ def run_schedule(sc, sched, seqs):
         verif_sched.coop_locks_in(backend)
         events = []
         log = verif_side.log
+        mech0, undo_mech = None, None
+        if sc.get("mech"):
+            mech0 = mech_cache(proj_cache(backend, HASHES))
+            undo_mech = install_mech(backend)
 
         def mk(i, calls):
             def fn():
@@ -150,7 +215,22 @@ def run_schedule(sc, sched, seqs):
             pol = verif_sched.policy_preemptions(sched.get("start", 0), [tuple(x) for x in sched.get("preempts", [])])
         ctrl = verif_sched.Controller(fns, pol, max_steps=int(sc.get("max_steps", 20000)))
         ctrl.run()
+        if undo_mech:
+            undo_mech()
+        mech = []
         for item in log.take():
+            if item[0] == "M":
+                e = {"k": item[1], "t": item[2]}
+                if item[1] == "gend":
+                    e["found"] = item[3]
+                elif item[1] == "iend":
+                    e["ret"] = item[3]
+                mech.append(e)
+                continue
+            if item[0] == "Body" and sc.get("mech"):
+                mech.append({"k": "body", "t": item[3] if len(item) > 3 else 0})
+            if item[0] == "End" and sc.get("mech") and item[3]:
+                mech.append({"k": "end", "t": item[1] + 1})
             if item[0] == "Body":
                 events.append({"op": "Body", "k": kid((item[1], item[2]))})
             elif item[0] == "Start":
@@ -174,7 +254,12 @@ def run_schedule(sc, sched, seqs):
             for k in verif_thr.needed_keys(tuple(c[:2])):
                 if kid(k) not in warm:
                     warm.append(kid(k))
-        return {"cfg": {"warm": warm, "budget": sc.get("budget", 0), "scenario": sc.get("name", "")},
+        mech_doc = None
+        if sc.get("mech"):
+            mech.append(dict(mech_cache(p), k="quiesce", t=0))
+            store = sorted({c[1] for c in sc.get("warm", [])})
+            mech_doc = {"cfg": dict(mech0, want=[calls[0][1] for calls in sc["threads"]], store=store), "ev": mech}
+        return {"cfg": {"warm": warm, "budget": sc.get("budget", 0), "scenario": sc.get("name", "")}, "mech": mech_doc,
                 "ev": events, "steps": ctrl.step, "schedule": ctrl.schedule if len(ctrl.schedule) < 3000 else [],
                 "sched": sched}
     finally:
